@@ -20,11 +20,16 @@ Thr(r) == DivModT(MaxOf(r), FromInt(2147))[1]
 KInts == UNION { { Thr(r), Add(Thr(r), One), MaxOf(r), Add(MaxOf(r), One) } : r \in IntReps \ {"i8", "u8"} }
           \cup { FromInt(1), FromInt(2), FromInt(15), FromInt(16), FromInt(1000), FromInt(3072), BI("1000000"), BI("1000000000"), BI("1000000000000"), FromInt(127), FromInt(128), FromInt(255), FromInt(256) }
 U64Max == MaxOf("u64")
+P10_36 == Pow(FromInt(10), 36)
+P10_305 == Pow(FromInt(10), 305)
 Ks == { [kind |-> "rat", n |-> k, d |-> One] : k \in {j \in KInts : Le(j, U64Max) /\ j.s = 1} }
       \cup { [kind |-> "rat", n |-> One, d |-> k] : k \in { FromInt(2), FromInt(1000), BI("1000000"), Thr("i32"), MaxOf("i16") } }
       \cup { [kind |-> "rat", n |-> FromInt(3), d |-> FromInt(2)], [kind |-> "rat", n |-> FromInt(1001), d |-> FromInt(1000)],
              [kind |-> "rat", n |-> FromInt(1143), d |-> FromInt(1250)], [kind |-> "rat", n |-> FromInt(2), d |-> FromInt(3)] }
       \cup { [kind |-> "irr", n |-> FromInt(355), d |-> FromInt(113)],      \* pi (n/d only a label here)
-             [kind |-> "rat", n |-> Pow2(70), d |-> One] }                   \* 2^70: an integer no rep can hold
-KName(k) == IF k.kind = "irr" THEN "pi" ELSE IF k.n = Pow2(70) THEN "pow2_70" ELSE "rat"
+             [kind |-> "rat", n |-> Pow2(70), d |-> One],                    \* 2^70: an integer no rep can hold
+             \* huge and tiny ratios that only floating targets can take (km^3 -> nm^3 is 10^36; 2147 * 10^36 exceeds float's range)
+             [kind |-> "rat", n |-> P10_36, d |-> One], [kind |-> "rat", n |-> One, d |-> P10_36], [kind |-> "rat", n |-> P10_305, d |-> One] }
+KName(k) == IF k.kind = "irr" THEN "pi" ELSE IF k.n = Pow2(70) THEN "pow2_70" ELSE IF k.n = P10_36 THEN "pow10_36" ELSE IF k.d = P10_36 THEN "pow10_m36"
+            ELSE IF k.n = P10_305 THEN "pow10_305" ELSE "rat"
 =============================================================================
